@@ -5,6 +5,7 @@ package parser
 
 // a syntax error is reported at the current (unexpected) token; the first error wins (C13)
 //@ func parser.parser.error
+//@   assigns obj(p)
 //@   property C13
 //@   mode panics
 //@   requires p != nil
